@@ -1236,6 +1236,10 @@ def expires_after(
     )
 
     def cache_validation_callback(metadata):
+        if "time" not in metadata:
+            # Missing or incomplete metadata (e.g. interrupted write):
+            # consider the entry as expired.
+            return False
         computation_age = time.time() - metadata["time"]
         return computation_age < delta.total_seconds()
 
